@@ -1,5 +1,11 @@
-import Zc.Model.Wire.DecodeSpec
-/-! # C02 — the decoder is total, bounded and faithful on arbitrary datagrams -/
+import Zc.Proofs.DecodeLib
+/-! # C02 — the decoder is total, bounded and faithful on arbitrary datagrams
+
+`parse b` is the model of `DNSIncoming(b)` followed by `.answers()` (`Zc.Wire.DecodeLib`), a total
+function on **all** byte strings; every theorem below is quantified over all of them (the 8966-byte
+datagram limit only enters where a number is derived from the length).  The hop bound of the D2
+repair enters through `GenFacts.Incoming.hop_limit`; on a tree without it that lemma, and therefore
+this file, does not build. -/
 namespace Zc
 open Zc.Wire Zc.Wire.DecodeLib Zc.Wire.DecodeSpec
 
@@ -7,5 +13,56 @@ open Zc.Wire Zc.Wire.DecodeLib Zc.Wire.DecodeSpec
 theorem C02_guard (b : Bytes) (h : listenerAccepts b = true) : b.length ≤ 8966 := by
   simp [listenerAccepts, Gen.Incoming.oversize] at h
   omega
+
+/-- **Totality.** No exception leaves `DNSIncoming(b)` or `answers()`: every raise site of the
+decoder is an `IndexError` or an `IncomingDecodeError`, both are in `DECODE_EXCEPTIONS`, and the
+interpreter's recursion limit (the only other way out) is never reached. -/
+theorem C02_no_escape (b : Bytes) : (parse b).escaped = none :=
+  (parseWith_spec libCfg_ok b).noEscape
+
+/-- consequently the constructor always returns an object -/
+theorem C02_object_exists (b : Bytes) : ∃ p, (parse b).out = .ok p := by
+  have h := C02_no_escape b
+  unfold Run.escaped at h
+  split at h <;> simp_all
+
+/-- **Bounded recursion.** `_decode_labels_at_offset` never nests deeper than 129 activations
+(`MAX_DNS_LABELS + 1`), however the compression pointers are arranged. -/
+theorem C02_depth (b : Bytes) : (parse b).st.maxDepth ≤ 129 := by
+  have h := (parseWith_spec libCfg_ok b).eff.depthB
+  simp at h
+  exact h
+
+/-- **Bounded work.** For a datagram of `n` bytes: at most `3n + 2` calls of `_read_name`, at most
+129 activations of `_decode_labels_at_offset` per name, at most `n` label reads per activation. -/
+theorem C02_work (b : Bytes) :
+    (parse b).st.names ≤ 3 * b.length + 2 ∧ (parse b).st.acts ≤ 129 * (parse b).st.names ∧
+    (parse b).st.reads ≤ b.length * (parse b).st.acts := by
+  obtain ⟨h1, h2, h3, h4, h5, h6, h7⟩ := (parseWith_spec libCfg_ok b).eff
+  simp at h1 h2 h3 h4 h5 h6 h7
+  exact ⟨h2, h5, h6⟩
+
+/-- the budget predicate the harness evaluates on the implementation's counters holds of the model -/
+theorem C02_within_budget (b : Bytes) : runWithinBudget (parse b) b.length = true := by
+  obtain ⟨h1, h2, h3⟩ := C02_work b
+  have h4 := C02_depth b
+  simp [runWithinBudget, withinBudget, h1, h2, h3, h4]
+
+/-- the budget as plain numbers at the datagram limit: fewer than 3.5 million activations -/
+theorem C02_work_8966 (b : Bytes) (hb : b.length ≤ 8966) :
+    (parse b).st.names ≤ 26900 ∧ (parse b).st.acts ≤ 3470100 := by
+  obtain ⟨h1, h2, _⟩ := C02_work b
+  omega
+
+/-- **Short names.** Every name on the returned object — question names, owner names, PTR/CNAME
+targets, SRV targets, NSEC next names — is at most 253 characters long (valid or not). -/
+theorem C02_names_short (b : Bytes) (p : Parsed) (h : (parse b).parsed? = some p) : namesShort p = true :=
+  (parseWith_spec libCfg_ok b).short p h
+
+/-- the same, name by name -/
+theorem C02_names_short_each (b : Bytes) (p : Parsed) (h : (parse b).parsed? = some p) :
+    ∀ n ∈ namesOf p, nameLen n ≤ 253 := by
+  have := C02_names_short b p h
+  simpa [namesShort, List.all_eq_true] using this
 
 end Zc
